@@ -221,7 +221,7 @@ impl Prop for Malformed {
                 0 if !cs.is_empty() => {
                     cs.remove(pos);
                 }
-                1 => cs.insert(pos, *u.choose(HOSTILE)?),
+                1 => cs.insert(pos, if u.ratio(1, 6)? { crate::props::c11::random_non_ascii(u)? } else { *u.choose(HOSTILE)? }),
                 2 if !cs.is_empty() => cs[pos] = *u.choose(HOSTILE)?,
                 3 => cs.truncate(pos),
                 _ => {
